@@ -284,17 +284,25 @@ Definition rfc9000_allowed (lvl t : Z) : bool :=
 
 Definition all_types : list Z := map Z.of_nat (seq 1 255).
 
-(** Whatever isAllowedAtEncLevel allows, table 3 allows — except HANDSHAKE_DONE in 0-RTT.
-    (checked over all one-byte types and the four levels: the table is generated from the code) *)
-Lemma allow_list_within_rfc :
+(** isAllowedAtEncLevel IS table 3 of RFC 9000 (checked over all one-byte types and the four
+    levels: the table is generated from the code), with one deliberate, stricter entry:
+    CONNECTION_CLOSE of type 0x1c is refused in 0-RTT packets (table 3 would allow it). *)
+Lemma allow_list_is_rfc_table3 :
   forallb (fun lvl => forallb (fun t =>
-     implb (type_allowed lvl t) (rfc9000_allowed lvl t || ((lvl =? 3) && (t =? 30)))) all_types) [1; 2; 3; 4] = true.
+     Bool.eqb (type_allowed lvl t) (rfc9000_allowed lvl t && negb ((lvl =? 3) && (t =? 28)))) all_types) [1; 2; 3; 4] = true.
 Proof. vm_compute. reflexivity. Qed.
 
-(** the exception is real: the faithful table accepts HANDSHAKE_DONE (0x1e) at the 0-RTT level *)
-Lemma allow_list_0rtt_handshake_done_refuted :
-  exists lvl t, rfc9000_allowed lvl t = false /\ type_allowed lvl t = true /\ type_valid (Cfg false false false 3) t = true.
-Proof. exists 3, 30. repeat split; reflexivity. Qed.
+(** Regression (the former counter-example): HANDSHAKE_DONE (0x1e) is refused at the 0-RTT level,
+    before the parser looks at anything else, whatever the parser configuration. *)
+Example handshake_done_0rtt_rejected c body :
+  type_allowed 3 FT_HandshakeDone = false /\ parse_next c 3 (FT_HandshakeDone :: body) = Err 5 1.
+Proof.
+  split; [reflexivity|].
+  change (FT_HandshakeDone :: body) with (vappend FT_HandshakeDone ++ body).
+  apply reject_not_allowed; try reflexivity.
+  - unfold vwf, FT_HandshakeDone, maxVarInt8. lia.
+  - discriminate.
+Qed.
 
 (** at Initial and Handshake level only PING, ACK, CRYPTO, CONNECTION_CLOSE(0x1c) pass *)
 Lemma allow_list_initial_handshake :
